@@ -12,10 +12,12 @@ import (
 )
 
 // CharPool is chosen to collide with the classes and with itself.
-var CharPool = []string{"a", "b", "c", "A", "B", "O", "0", "1", "5", "7", "S", "l", "I", "!", "-", "_", "*", "@", ".", "z", "Z", "9", "é", "ß", "λ", "正", "💩", "�", " ", "ǆ"}
+var CharPool = []string{"a", "b", "c", "A", "B", "O", "0", "1", "5", "7", "S", "l", "I", "!", "-", "_", "*", "@", ".", "z", "Z", "9", "é", "ß", "λ", "正", "💩", "�", " ", "ǆ", "+", ",", "/", "\n"}
 
 // AsciiPool is the ASCII part (used where diagnostics must not collide).
 var AsciiPool = CharPool[:22]
+
+// SepSpec.Decoy: a SeparatorChar set in addition to a separator function (which must win).
 
 func poolString(t *rapid.T, label string, pool []string, min, max int) string {
 	n := rapid.IntRange(min, max).Draw(t, label+"_n")
@@ -209,6 +211,8 @@ type SepSpec struct {
 	Preset    string           `json:"preset,omitempty"`   // name of exported preset
 	Recipe    *oracle.CharSpec `json:"recipe,omitempty"`   // NewSFFunction(recipe)
 	Script    []string         `json:"script,omitempty"`   // scripted closure return values (cyclic)
+	Decoy     string           `json:"decoy,omitempty"`    // SeparatorChar set although a SeparatorFunc is given (the function must be used)
+	VaryEnt   bool             `json:"vary_ent,omitempty"` // kind "draw": the reported entropy alternates between calls
 	Draw      []string         `json:"draw,omitempty"`     // kind "draw": closure picks one of these uniformly with the library's bounded draw
 	DrawEnt   float32          `json:"draw_ent,omitempty"` // entropy that closure reports (0 = under-claims, allowed)
 	ScriptEnt float32          `json:"script_ent,omitempty"`
@@ -232,7 +236,7 @@ func Sep(t *rapid.T, small bool, allowScript bool) SepSpec {
 		if small {
 			ps = []string{"SFNone", "SFDigits1", "SFSymbols", "SFDigitsNoAmbiguous1"}
 		}
-		return SepSpec{Kind: "preset", Preset: rapid.SampledFrom(ps).Draw(t, "sep_preset")}
+		return SepSpec{Kind: "preset", Preset: rapid.SampledFrom(ps).Draw(t, "sep_preset"), Decoy: rapid.SampledFrom([]string{"", "", "#", "##"}).Draw(t, "sep_decoy")}
 	case k < 9 || !allowScript:
 		r := CharSpec(t, CharOpts{MaxLen: 2, MaxReq: 1, LeafCap: 16, Small: true, NoHiBits: true})
 		return SepSpec{Kind: "func", Recipe: &r}
